@@ -14,7 +14,7 @@ QUERIES = [
 # K6: the real BackendWorker::_cleanup_invalidated_thread_contexts (query defined in C03.py, harness/C03_k3.cpp)
 import importlib.util as _iu, os as _os
 _s3 = _iu.spec_from_file_location('c03', _os.path.join(_os.path.dirname(__file__), 'C03.py')); _m3 = _iu.module_from_spec(_s3); _m3.Q = Q; _s3.loader.exec_module(_m3)
-QUERIES += [q for q in _m3.QUERIES if q.name.startswith('K6_cleanup') or q.name.startswith('K2_teb_life')]
+QUERIES += [q for q in _m3.QUERIES if q.name.startswith('K6_cleanup') or q.name.startswith('K7_update') or q.name.startswith('K2_teb_life')]
 BOUNDS = 'up to 65535 pending exited threads; single step each; backend ring life cycle (grow, drain, shrink, refill) for requested capacities 3, 5, 6 (quick) / 8 (thorough)'
 OUTSIDE = 'thread-local destructor timing (OS/runtime)'
 ASSUMPTIONS = ['counter pre-state = what N real fetch_add(1) leave in the atomic (its own arithmetic), SC atomics (single RMW location)']
